@@ -8,28 +8,40 @@ namespace Ggql.ValueText
 
 def genTbl : Tbl :=
   { charMap := Gen.charMap, numMap := Gen.numMap, spaceClass := Gen.spaceClass, tokenClass := Gen.tokenClass,
-    numClass := Gen.numClass, escapes := Gen.escapeTable, unescapes := Gen.unescapeTable, terminators := Gen.numberTerminators }
+    numClass := Gen.numClass, escapes := Gen.escapeTable, unescapes := Gen.unescapeTable, terminators := Gen.numberTerminators, jsonKeysEscaped := Gen.jsonKeysEscaped }
 
 /-- **C18_tables.**  Character classes, escape and unescape switches and the number-terminator set of
 the current source are the ones the round-trip theorems are stated for. -/
 theorem C18_tables :
     genTbl.charMap = stdTbl.charMap ∧ genTbl.numMap = stdTbl.numMap ∧ genTbl.spaceClass = stdTbl.spaceClass ∧
     genTbl.tokenClass = stdTbl.tokenClass ∧ genTbl.numClass = stdTbl.numClass ∧ genTbl.escapes = stdTbl.escapes ∧
-    genTbl.unescapes = stdTbl.unescapes ∧ genTbl.terminators = stdTbl.terminators := by
-  refine ⟨?_, ?_, ?_, ?_, ?_, ?_, ?_, ?_⟩ <;> decide +kernel
+    genTbl.unescapes = stdTbl.unescapes ∧ genTbl.terminators = stdTbl.terminators ∧
+    genTbl.jsonKeysEscaped = stdTbl.jsonKeysEscaped := by
+  refine ⟨?_, ?_, ?_, ?_, ?_, ?_, ?_, ?_, ?_⟩ <;> decide +kernel
 
 theorem genTbl_eq : genTbl = stdTbl := by
-  obtain ⟨h1, h2, h3, h4, h5, h6, h7, h8⟩ := C18_tables
+  obtain ⟨h1, h2, h3, h4, h5, h6, h7, h8, h9⟩ := C18_tables
   have : ∀ a b : Tbl, a.charMap = b.charMap → a.numMap = b.numMap → a.spaceClass = b.spaceClass → a.tokenClass = b.tokenClass →
-      a.numClass = b.numClass → a.escapes = b.escapes → a.unescapes = b.unescapes → a.terminators = b.terminators → a = b := by
+      a.numClass = b.numClass → a.escapes = b.escapes → a.unescapes = b.unescapes → a.terminators = b.terminators →
+      a.jsonKeysEscaped = b.jsonKeysEscaped → a = b := by
     intro a b; cases a; cases b; simp_all
-  exact this _ _ h1 h2 h3 h4 h5 h6 h7 h8
+  exact this _ _ h1 h2 h3 h4 h5 h6 h7 h8 h9
 
 /-- **C18_sdl on the current source.**  The round trip, for the writer and reader interpreting the
 tables regenerated from the source on this run. -/
 theorem C18_sdl_current {F : Type} (ft : FloatText F) (hft : FloatOK ft) (v : Value F) (hwf : v.WF) (indent : Int) :
     readValue genTbl ft (sz v) (writeSDL genTbl ft indent v) = some (v, trail 0 indent v) := by
   rw [genTbl_eq]; exact C18_sdl ft hft v hwf indent
+
+/-- **C18_json_keys (on the model).**  With member names written through `writeString`, the JSON text of a map
+member starts with the escaped, quoted key — the same function that writes string values, whose output
+`C18_string_json`-style lemmas cover — whatever characters the key holds. -/
+theorem C18_json_member_key {F : Type} (ft : FloatText F) (d2 : Nat) (k : List Char) (v : Value F) (rest : List (List Char × Value F)) :
+    ∃ tail, writeMembers genTbl ft false d2 (-1) true ((k, v) :: rest) = writeString genTbl k true ++ tail := by
+  have hk : genTbl.jsonKeysEscaped = true := by rw [genTbl_eq]; rfl
+  refine ⟨[':'] ++ (if (0 : Int) ≤ -1 then [' '] else []) ++ writeValue genTbl ft false d2 (-1) v ++
+      writeMembers genTbl ft false d2 (-1) (decide ((-1 : Int) < 0) && false && v.isCollection) rest, ?_⟩
+  simp [writeMembers, hk]
 
 /-- `unescape ∘ escape = id` on the regenerated tables: every escaped form `\x` is mapped back by the
 reader's switch -/
